@@ -635,6 +635,54 @@ def run_ctor(desc, seed):
                 add(f"C06:ctor:sweep:{klass}", f"{tag}: canonicalising the product state changed it by {np.abs(d2 - ref).max():.2e}")
         except Exception as e:
             add(f"C06:ctor:sweep:exception:{type(e).__name__}", f"{tag}: {e!r}")
+    if desc["qn_idx"] is None:
+        # operators whose minus signs are SPELLED with the symbolic algebra (unary minus, subtraction) instead of a negative factor: the
+        # charge the operator carries (qntot), its bond labels and the sector it maps a state to must be those of the plain spelling
+        from renormalizer.model import OpSum
+        from renormalizer.mps import Mpo
+        for oname, terms, charge in (("raising", ch.r_terms, np.array(raising_charge(fam))), ("neutral", ch.h_terms, np.zeros(len(raising_charge(fam)), dtype=int))):
+            if not terms:
+                continue
+            D = np.asarray(Mpo(ch.new_model(), terms).todense())
+            spellings = {"unary-minus": lambda: [-t for t in terms],
+                         "t - 2t": lambda: [x for t in terms for x in (t - 2 * t)],
+                         "OpSum - OpSum": lambda: list(OpSum(list(terms)) - OpSum([2 * t for t in terms]))}
+            for sname, mk in spellings.items():
+                tagop = f"[{fam} n={n}] {oname} operator spelled with {sname}"
+                try:
+                    O = Mpo(ch.new_model(), mk())
+                    got = np.asarray(O.todense())
+                except Exception as e:
+                    add(f"C06:operator-spelling:exception:{type(e).__name__}", f"{tagop}: {e!r}")
+                    continue
+                nb += 1
+                if not np.allclose(got, -D, atol=1e-10 * max(1.0, np.abs(D).max())):
+                    add("C06:operator-spelling:dense", f"{tagop}: dense matrix is not minus the plain operator")
+                if np.any(np.asarray(O.qntot).reshape(-1) != charge):
+                    add(f"C06:operator-spelling:qntot:{sname}", f"{tagop}: qntot {np.asarray(O.qntot).tolist()}, the operator changes the quantum number by {charge.tolist()}")
+                    continue
+                v, where = M.label_violation(O)
+                if v > 1e-10:
+                    add(f"C06:operator-spelling:label:{sname}", f"{tagop}: entry of relative size {v:.2e} in a block the stored labels forbid ({where})")
+                    continue
+                # applied to a state of the lowest non-trivial sector
+                secs = sectors(fam, n)
+                sec0 = secs[1] if len(secs) > 2 else secs[0]
+                try:
+                    st_ = ch.random_mps(list(sec0), 3, "opsp")
+                    out = O.apply(st_)
+                    out.ensure_left_canonical()
+                    dd = M.dense_of(out)
+                    want = np.array(sec0) + charge
+                    if np.linalg.norm(dd) > 1e-12:
+                        maskq = sector_projector(sig, want)
+                        if np.linalg.norm(dd[~maskq]) > 1e-10 * np.linalg.norm(dd) or np.any(np.asarray(out.qntot).reshape(-1) != want):
+                            add(f"C06:operator-spelling:applied-state:{sname}", f"{tagop}: applied to a state of sector {list(sec0)} the result is labelled {np.asarray(out.qntot).tolist()} / lies outside sector {want.tolist()}")
+                        ref_ = -D @ M.dense_of(st_)
+                        if not np.allclose(dd, ref_, atol=1e-9 * max(1.0, np.abs(ref_).max())):
+                            add(f"C06:operator-spelling:applied-state-vector:{sname}", f"{tagop}: O|psi> after a gauge sweep differs from the dense product")
+                except Exception as e:
+                    add(f"C06:operator-spelling:apply-exception:{type(e).__name__}:{sname}", f"{tagop}: applying it to a state of sector {list(sec0)} and sweeping raised {e!r}")
     return {"nontrivial": nb > 0, "states": nb, "transitions": 2 * nb, "viol": list(viol.values()), "counters": {"product_states_built": nb},
             "outcome": "ctor:viol" if viol else "ctor:ok", "sample": {"desc": desc, "product_states": nb}}
 
